@@ -3,6 +3,7 @@ package navmesh
 import (
 	"github.com/kercylan98/minotaur/toolkit/geometry"
 	"github.com/kercylan98/minotaur/toolkit/navigate/astar"
+	"math"
 )
 
 // NewNavMesh 创建一个新的导航网格，并返回一个指向该导航网格的指针。
@@ -248,9 +249,9 @@ func (m *NavMesh) generateLink() {
 					shapePkg.links = append(shapePkg.links, targetShapePkg)
 					targetShapePkg.links = append(targetShapePkg.links, shapePkg)
 
-					edgeAngle := shapeCentroid.PolarAngle(shapeEdge[0])
-					a1 := shapeCentroid.PolarAngle(overlapLine[0])
-					a2 := shapeCentroid.PolarAngle(overlapLine[1])
+					edgeAngle := shapeCentroid.PolarAngle(shapeEdge[0]) * 180 / math.Pi
+					a1 := shapeCentroid.PolarAngle(overlapLine[0]) * 180 / math.Pi
+					a2 := shapeCentroid.PolarAngle(overlapLine[1]) * 180 / math.Pi
 					a3 := geometry.CalcAngleDifference(edgeAngle, a1)
 					a4 := geometry.CalcAngleDifference(edgeAngle, a2)
 					if a3 < a4 {
@@ -259,9 +260,9 @@ func (m *NavMesh) generateLink() {
 						shapePkg.portals = append(shapePkg.portals, geometry.NewLineSegment(overlapLine[1], overlapLine[0]))
 					}
 
-					edgeAngle = targetShapeCentroid.PolarAngle(targetEdge[0])
-					a1 = targetShapeCentroid.PolarAngle(overlapLine[0])
-					a2 = targetShapeCentroid.PolarAngle(overlapLine[1])
+					edgeAngle = targetShapeCentroid.PolarAngle(targetEdge[0]) * 180 / math.Pi
+					a1 = targetShapeCentroid.PolarAngle(overlapLine[0]) * 180 / math.Pi
+					a2 = targetShapeCentroid.PolarAngle(overlapLine[1]) * 180 / math.Pi
 					a3 = geometry.CalcAngleDifference(edgeAngle, a1)
 					a4 = geometry.CalcAngleDifference(edgeAngle, a2)
 					if a3 < a4 {
